@@ -156,8 +156,8 @@ def _install():
             return True
         # solver tolerances measured on the unchanged tree with >= 10x margin (lsq_linear works on the normal equations:
         # its error grows like 1e-9 / sigma_min^4)
-        solver_tol = {None: 1e-8 * (1 + 1 / smin), "lsq": 1e-5 * (1 + 1 / smin),
-                      "lsq_linear": 1e-4 + 1e-8 / smin ** 4}[c["method"]]
+        solver_tol = {None: 1e-7 * (1 + 1 / smin), "lsq": 1e-5 * (1 + 1 / smin),
+                      "lsq_linear": 1e-4 + 5e-8 / smin ** 4}[c["method"]]
         if straddle == 0:
             first = np.linalg.norm(dA @ x_true)
             tol = 5 * pinv_norm * first * (1 + pinv_norm * np.linalg.norm(dA, 2)) + solver_tol
